@@ -288,7 +288,7 @@ func (s c08Step) text(mangle func(string) string, styled bool) string {
 	case "def":
 		var ll strings.Builder
 		s.Def.lambdaList(&ll, mangle, styled)
-		name := c08Spell(mangle(s.Def.Name), s.Def.Sp&^3)
+		name := c08Spell(mangle(s.Def.Name), s.Def.Sp)
 		if len(s.Def.Binds) > 0 {
 			var bs strings.Builder
 			for i, bd := range s.Def.Binds {
@@ -799,7 +799,7 @@ func (g *c08Gen) spelling(callSite bool) int {
 // sometimes &optional / &key parameters with constant defaults
 func (g *c08Gen) signature(name string) *c08Def {
 	r := g.rng
-	d := &c08Def{Name: name, Params: []string{"n"}, Sp: g.spelling(false)}
+	d := &c08Def{Name: name, Params: []string{"n"}, Sp: g.spelling(true)}
 	d.Params = append(d.Params, []string{"a", "b"}[:r.Intn(3)]...)
 	if r.Chance(30) {
 		for _, o := range []string{"o", "p"}[:1+r.Intn(2)] {
@@ -923,7 +923,7 @@ func (g *c08Gen) program() *c08Program {
 	redefine := func(i int, tag string) {
 		// a new definition of an existing function: same lambda list up to &aux, new &aux and body
 		old := g.funcs[i]
-		nd := &c08Def{Name: old.Name, Params: old.Params, Opt: old.Opt, Key: old.Key, Sp: g.spelling(false)}
+		nd := &c08Def{Name: old.Name, Params: old.Params, Opt: old.Opt, Key: old.Key, Sp: g.spelling(true)}
 		g.fill(i, nd, true)
 		p.Tail = append(p.Tail, c08Step{Kind: "def", Def: nd, Tag: tag})
 	}
@@ -1056,6 +1056,9 @@ func c08Show(v slip.Object, suffix string) string {
 		}
 		if strings.HasPrefix(s, ":") {
 			return "k:" + s[1:]
+		}
+		if i := strings.LastIndexByte(s, ':'); i >= 0 {
+			s = s[i+1:] // a package qualified function name
 		}
 		return "y:" + strings.TrimSuffix(s, suffix)
 	}
@@ -1810,6 +1813,11 @@ func c08SweepCells() []c08Cell {
 			c08Cell{"spelling-defun-upper/backward", []c08Step{def(hU, ""), def(gU, ""), ev(c08Call("g", c08Const(3))), ev(callGU), ag(0)}},
 			c08Cell{"spelling-defun-upper/forward", []c08Step{def(gU, ""), ev(c08Call("g", c08Const(3))), def(hU, "late"), ag(0), ev(callGU)}},
 			c08Cell{"spelling-defun-upper/redefine", []c08Step{def(h(0), ""), def(gU, ""), ev(callGU), def(func() *c08Def { d := h(1); d.Sp = 11 << 2; return d }(), "redef"), ag(0)}},
+			c08Cell{"spelling-defun-qualified", []c08Step{def(gU, ""), ev(callGU), def(func() *c08Def { d := h(0); d.Sp = 4<<2 | 1; return d }(), "late"), ag(0),
+				def(func() *c08Def {
+					d := &c08Def{Name: "h", Params: []string{"a", "b"}, Binds: []c08Aux{{Name: "c0", Init: c08Const(7)}}, Body: c08Prim("+", c08Prim("*", c08Var("a"), c08Var("c0")), c08Var("b")), Sp: 2}
+					return d
+				}(), "redef"), ag(0), ag(0)}},
 			c08Cell{"spelling-undef-upper", []c08Step{def(h(0), ""), def(gU, ""), ev(callGU), c08Step{Kind: "undef", Name: "h", Sp: 6 << 2}, ag(0), def(hU, "redef-after-undef"), ag(0)}},
 		)
 	}
